@@ -111,6 +111,10 @@ def build(p):
             for i, inp in enumerate(inputs):
                 E.spawn("env%d" % (i + 1), finish_input, inp)
         s.track(1, fut)
+        if p.get("cb_raise_first"):
+            def bad_cb(f_):
+                raise H.OtherError("callback")
+            fut.add_done_callback(bad_cb)      # a raising callback registered before every other one
 
         def canceller(t):
             E.vsleep(t)
